@@ -3,7 +3,7 @@
 in meta.json 'also_run'), record the outcome in meta.json, regenerate seeded/README.md."""
 import json, os, subprocess, sys, glob, re
 os.chdir('/verif')
-names = sys.argv[1:] or sorted(os.path.basename(d) for d in glob.glob('seeded/*') if os.path.isdir(d))
+names = sys.argv[1:] or sorted(os.path.basename(d) for d in glob.glob('seeded/*') if os.path.isfile(d + '/meta.json'))
 for n in names:
     mp = f'seeded/{n}/meta.json'; m = json.load(open(mp))
     checks = [m['breaks_property']] + m.get('also_run', [])
@@ -22,7 +22,7 @@ for n in names:
 # README
 rows=[]
 for d in sorted(glob.glob('seeded/*')):
-    if not os.path.isdir(d): continue
+    if not os.path.isfile(d+'/meta.json'): continue
     m=json.load(open(d+'/meta.json'))
     caught=[f"{k}: {v['first'][:100]}" for k,v in m.get('checks_run',{}).items() if isinstance(v,dict) and v.get('exit')==1]
     rows.append(f"| `{os.path.basename(d)}` | {m['breaks_property']} | {m.get('round','')} | {m['needs_to_manifest']} | {'yes' if m.get('caught_before_any_strengthening') else 'no'} | {m.get('strengthening_it_prompted','—')} | {'<br>'.join(caught) if caught else '**not caught**'} |")
